@@ -1,25 +1,38 @@
 """C19 Client spec bunching preserves order and limits.
 
-Decides (from the syntax tree of hailtop/batch_client/aioclient.py; nothing is run):
+Decides (from the syntax tree of hailtop/batch_client/aioclient.py; nothing is run; statement-level same-class helpers of `_create_bunches`
+are inlined first, static methods included):
   R1  source and order: the bunching loop iterates [*<JOB_GROUP-tagged specs of parameter 1>, *<JOB-tagged specs of parameter 2>] built by
-      unfiltered comprehensions; `_submit` passes (self._job_group_specs, self._job_specs, max_bunch_bytesize, max_bunch_size) in that order;
-      the function returns the list the bunches were appended to
+      unfiltered comprehensions whose element is SpecBytes(dumps(x), tag) directly or through a helper every return of which is that
+      constructor; `_submit` passes (self._job_group_specs, self._job_specs, max_bunch_bytesize, max_bunch_size) in that order and
+      `submit` forwards ITS OWN limit arguments to `_submit`
   R2  linear use, on every path through the loop body (all paths are enumerated on the CFG): the spec is consumed exactly once, by
       `bunch.append(spec)` or by the fresh `[spec]`; `bunch` is rebound only right after it was appended to the result and a flushed bunch
-      is never touched again; after the loop the residual non-empty bunch is appended
+      is never touched again; after the loop the residual non-empty bunch is appended (several `return <result>` are accepted)
   R3  limits in linear normal form: the appending path is guarded by  bytes + n <= max_bytes  and  len(bunch) + 1 <= max_size  (or
       something stronger), the tracked byte count is an upper bound of the bunch's bytes on every path (+= n on append, reset to >= n with the
-      fresh bunch, 0 initially), and a fresh single-spec bunch is preceded by a check  n <= max_bytes
+      fresh bunch, 0 initially), and a fresh single-spec bunch is preceded by a check  n <= max_bytes.  The compared bound must be THIS
+      CALL's limit parameter or a value provably <= it (a local defined as `min(.., <param>, ..)` or linearly from it); per-spec facts are
+      taken from the loop body (assert / if-raise, also inside an inlined helper), from the rejecting comparisons of a serialisation helper
+      used in the source comprehensions (its parameters translated to the caller's arguments) and from `assert all(.. for s in <specs>)`
+      before the loop - a check against a class constant establishes nothing about the parameter
   R4  submitters: each submitter filters by the SpecType that matches the endpoint / JSON key it feeds, bunches reach the submitters
       unchanged and in list order, and in both multi-bunch paths of `_submit` the job-group bunches are submitted (awaited) before the job bunches
-Does not decide: that orjson.dumps is deterministic; server-side handling.
+  R5  who may mutate the result structure (decided over EVERY statement of the function, alias-aware): a spec is only appended to the current
+      bunch, a bunch only appended at the end of the result list; inserting into / extending / overwriting an element of the result list
+      reached through an index or through a variable bound while iterating the result (zip / enumerate / slices included), insert at a
+      position other than the end, sort / reverse / shuffle, prepending, and returning a re-ordered copy are order violations; merging into
+      result[-1], removals and escapes of the list are declined
+Does not decide: that orjson.dumps is deterministic; server-side handling; the bytes the JSON array adds around the specs (brackets, commas).
 """
 from __future__ import annotations
 
 import ast
-from typing import Dict, List, Optional, Tuple
+from typing import Dict, List, Optional, Set, Tuple
 
-from engines import linform, pyfacts as pf
+import copy
+
+from engines import c1819facts as facts, inline, linform, pyfacts as pf
 from engines.common import AnalysisError, Ctx
 from engines.linform import Lin
 
@@ -29,7 +42,7 @@ META = dict(
          'compared in linear normal form; def-use of the iterable; dominance of job-group submission over job submission. Every path of the loop body is an '
          'obligation and all are discharged, but list semantics are taken from the recognised idioms (append / [spec] / rebinding), so the level is "other".',
     note='Trusted: CPython ast; engines/pyfacts CFG; engines/linform; list.append appends at the end; assert statements are enabled. Spec sizes are non-negative.',
-    technique='static analysis: path enumeration on the CFG (linear use), linear normal forms, def-use, dominance',
+    technique='static analysis: path enumeration on the CFG (linear use), linear normal forms, def-use, dominance, helper inlining, who-may-mutate rule with aliases',
     design_ref='DESIGN.md §3 C19',
 )
 
@@ -71,11 +84,371 @@ def _nonneg_const(d: Lin) -> bool:
     return d.is_const() and d.const >= 0
 
 
-class _Loop:
-    pass
+ELEM = '<spec>.n_bytes'
+REORDER_FUNCS = ('sorted', 'reversed')
 
 
-def _bunching(ctx: Ctx, m: pf.Module) -> None:
+def _prepared(m: pf.Module) -> Tuple[pf.Module, List[Tuple[str, int]]]:
+    """A copy of the module in which the statement-level same-class helper calls of `_create_bunches` are inlined (engines/inline).  Static
+    methods are first turned into ordinary methods (receiver added, `Batch.h(..)` rewritten to `self.h(..)`) so that they are inlined too."""
+    tree = copy.deepcopy(m.tree)
+    m1 = pf.Module(m.rel, m.path, m.src, tree)
+    cls = m1.cls(CLS)
+    target = None
+    for f in cls.body:
+        if isinstance(f, ast.FunctionDef) and f.name == '_create_bunches':
+            target = f
+    if target is None or not target.args.args:
+        return m, []
+    recv = target.args.args[0].arg
+    statics = set()
+    for f in cls.body:
+        if isinstance(f, ast.FunctionDef) and pf.decorator_names(f) == ['staticmethod'] and recv not in {a.arg for a in f.args.args} \
+                and not any(isinstance(x, ast.Name) and x.id == recv for x in ast.walk(f)):
+            f.decorator_list = []
+            f.args.args.insert(0, ast.arg(arg=recv))
+            statics.add(f.name)
+    for x in ast.walk(target):
+        if isinstance(x, ast.Call) and isinstance(x.func, ast.Attribute) and isinstance(x.func.value, ast.Name) and x.func.value.id == CLS and x.func.attr in statics:
+            x.func.value = ast.copy_location(ast.Name(id=recv, ctx=ast.Load()), x.func.value)
+    ast.fix_missing_locations(tree)
+    m2, il = inline.inline_methods(m1, CLS, '_create_bunches')
+    return m2, il.inlined
+
+
+def _weaken(L: Lin, bounds: Dict[str, str]) -> List[Lin]:
+    """L <= 0 with a term  -c * min(.., P, ..)  (c > 0) implies the same fact with P in place of the min: min(..) <= P."""
+    out = [L]
+    for s0, c in list(L.coef.items()):
+        if c < 0 and s0.startswith('min('):
+            try:
+                e = ast.parse(s0, mode='eval').body
+            except SyntaxError:
+                continue
+            if isinstance(e, ast.Call) and not e.keywords:
+                for a in e.args:
+                    if pf.nsrc(a) in bounds:
+                        out.append(L - Lin({s0: c}) + Lin({bounds[pf.nsrc(a)]: c}))
+    return out
+
+
+def _paths_to_returns(g: pf.CFG, limit: int = 64) -> List[Tuple[List[Tuple[pf.Node, str]], pf.Node]]:
+    """All acyclic entry -> return paths of a small helper (AnalysisError when there are loops or too many)."""
+    out: List[Tuple[List[Tuple[pf.Node, str]], pf.Node]] = []
+
+    def dfs(n: pf.Node, acc: List[Tuple[pf.Node, str]], seen: Set[int]) -> None:
+        if len(out) > limit:
+            raise AnalysisError('too many paths through the helper')
+        if n.kind == 'return':
+            out.append((acc, n))
+            return
+        for nxt, lab in n.succ:
+            if nxt is g.raise_exit or nxt.kind == 'raise':
+                continue
+            if nxt.id in seen:
+                raise AnalysisError('the helper contains a loop')
+            dfs(nxt, acc + [(n, lab)], seen | {nxt.id})
+    dfs(g.entry, [], {g.entry.id})
+    return out
+
+
+def _elem_ctor(ctx: Ctx, m: pf.Module, elt: ast.AST, where: str) -> Tuple[ast.AST, ast.AST, List[Lin], str]:
+    """The element expression of a source comprehension as (payload expression, type tag, facts about the element's byte size that hold for every
+    element, description).  `SpecBytes(<bytes>, <tag>)` directly, or a call of a same-class / module-level helper every return of which is such a
+    constructor call; the helper's rejecting comparisons (raise / assert) become facts `L <= 0` over ELEM and the CALLER's argument expressions."""
+    if isinstance(elt, ast.Call) and pf.dotted(elt.func) == 'SpecBytes' and len(elt.args) == 2 and not elt.keywords:
+        return elt.args[0], elt.args[1], [], 'SpecBytes(...)'
+    ctx.need(isinstance(elt, ast.Call) and not any(isinstance(a, ast.Starred) for a in elt.args) and not any(k.arg is None for k in elt.keywords),
+             f'{where}: `{pf.nsrc(elt)}` is not SpecBytes(<bytes>, <type>)')
+    f = elt.func  # type: ignore[union-attr]
+    h: Optional[ast.FunctionDef] = None
+    drop = 0
+    if isinstance(f, ast.Attribute) and isinstance(f.value, ast.Name) and f.value.id in ('self', 'cls', CLS):
+        for d in m.cls(CLS).body:
+            if isinstance(d, ast.FunctionDef) and d.name == f.attr:
+                h = d
+        if h is not None:
+            decs = pf.decorator_names(h)
+            ctx.need(all(d in ('staticmethod', 'classmethod') for d in decs), f'{where}: helper `{f.attr}` is decorated with {decs}')
+            drop = 0 if 'staticmethod' in decs else 1
+    elif isinstance(f, ast.Name):
+        for d in m.tree.body:
+            if isinstance(d, ast.FunctionDef) and d.name == f.id:
+                h = d
+    ctx.need(h is not None, f'{where}: `{pf.nsrc(elt)}` is not SpecBytes(<bytes>, <type>) and not a call of a helper defined in this module')
+    assert h is not None
+    hw = f'{F}::{h.name}'
+    a = h.args
+    ctx.need(not (a.vararg or a.kwarg or a.posonlyargs), f'{hw}: star parameters')
+    ctx.need(not any(isinstance(x, (ast.For, ast.While, ast.AsyncFor, ast.Try, ast.With, ast.Await, ast.Yield, ast.YieldFrom, ast.Lambda)) for x in pf.walk_shallow(h)),
+             f'{hw}: loops / try / with in the serialisation helper (not analysed)')
+    params = [x.arg for x in a.args][drop:] + [x.arg for x in a.kwonlyargs]
+    bound: Dict[str, ast.AST] = {}
+    ctx.need(len(elt.args) <= len(a.args) - drop, f'{hw}: too many arguments in `{pf.nsrc(elt)}`')  # type: ignore[union-attr]
+    for p_, v in zip(params, elt.args):  # type: ignore[union-attr]
+        bound[p_] = v
+    for k in elt.keywords:  # type: ignore[union-attr]
+        ctx.need(k.arg in params and k.arg not in bound, f'{hw}: keyword `{k.arg}` does not bind')
+        bound[k.arg] = k.value  # type: ignore[index]
+    pos = [x.arg for x in a.args][drop:]
+    for p_, dflt in list(zip(pos[len(pos) - len(a.defaults):], a.defaults)) + [(x.arg, d) for x, d in zip(a.kwonlyargs, a.kw_defaults) if d is not None]:
+        bound.setdefault(p_, dflt)
+    ctx.need(all(p_ in bound for p_ in params), f'{hw}: unbound parameter in `{pf.nsrc(elt)}`')
+    rets = [st for st in _stmts(h) if isinstance(st, ast.Return)]
+    ctx.need(bool(rets), f'{hw}: no return')
+    ctors = []
+    for r in rets:
+        v = pf.resolve_expr(h, r.value) if r.value is not None else None
+        ctx.need(isinstance(v, ast.Call) and pf.dotted(v.func) == 'SpecBytes' and len(v.args) == 2 and not v.keywords,
+                 f'{hw}: `{pf.nsrc(r)}` does not return SpecBytes(<bytes>, <type>)')
+        ctors.append((r, v))
+    ctx.need(len({pf.nsrc(v) for _, v in ctors}) == 1, f'{hw}: returns different constructor calls')
+    ctor = ctors[0][1]
+    pay = pf.resolve_expr(h, ctor.args[0])  # type: ignore[union-attr]
+    tag = ctor.args[1]  # type: ignore[union-attr]
+
+    class _Sub(ast.NodeTransformer):
+        def visit_Name(self, n: ast.Name):
+            if isinstance(n.ctx, ast.Load) and n.id in bound:
+                return copy.deepcopy(bound[n.id])
+            return n
+    locals_ = {n.id for n in pf.walk_shallow(h) if isinstance(n, ast.Name) and isinstance(n.ctx, ast.Store)}
+    ctx.need(not (locals_ & set(params)), f'{hw}: a parameter is re-assigned')
+    pay_c = _Sub().visit(copy.deepcopy(pay))
+    tag_c = _Sub().visit(copy.deepcopy(pf.resolve_expr(h, tag)))
+    # names for the element's size inside the helper
+    env: Dict[str, object] = {}
+    E = linform.sym(ELEM)
+    obj_names = [n for n, ds in pf.assignments(h).items() if len(ds) == 1 and ds[0] is ctor]
+    bytes_names = [n for n, ds in pf.assignments(h).items() if len(ds) == 1 and ds[0] is pay]
+    for on in obj_names:
+        env[f'{on}.n_bytes'] = E
+        env[f'len({on}.spec_bytes)'] = E
+    for bn in bytes_names:
+        env[f'len({bn})'] = E
+    env[f'len({pf.nsrc(pay)})'] = E
+    for n, ds in pf.assignments(h).items():
+        if len(ds) == 1 and isinstance(ds[0], ast.expr) and n not in obj_names and n not in bytes_names and n not in params:
+            env[n] = ds[0]
+    g = pf.cfg(h)
+    try:
+        paths = _paths_to_returns(g)
+    except AnalysisError as e:
+        raise AnalysisError(f'{hw}: {e}') from e
+    ctx.need(bool(paths), f'{hw}: no path reaches a return')
+    per_path: List[List[Lin]] = []
+    for path, _ret in paths:
+        fs: List[Lin] = []
+        for n, lab in path:
+            atoms: List[Tuple[ast.AST, bool]] = []
+            if n.kind == 'test' and lab in ('T', 'F'):
+                atoms = _conjuncts(n.ast, lab == 'T')  # type: ignore[arg-type]
+            elif n.kind == 'stmt' and isinstance(n.ast, ast.Assert):
+                atoms = _conjuncts(n.ast.test, True)
+            for atom, pol in atoms:
+                L = _le0(atom, pol, env)  # type: ignore[arg-type]
+                if L is not None and ELEM in L.coef:
+                    fs.append(L)
+        per_path.append(fs)
+    common = [L for L in per_path[0] if all(any(L == L2 for L2 in fs) for fs in per_path[1:])]
+    # translate helper parameters into the caller's expressions; drop facts over helper locals
+    out: List[Lin] = []
+    for L in common:
+        T = Lin({}, L.const)
+        ok = True
+        for s0, c in L.coef.items():
+            if s0 == ELEM:
+                T = T + Lin({ELEM: c})
+            elif s0 in bound:
+                try:
+                    T = T + linform.lin(bound[s0]).scale(c)
+                except AnalysisError:
+                    ok = False
+            else:
+                try:
+                    names = pf.names_in(ast.parse(s0, mode='eval').body)
+                except SyntaxError:
+                    names = {s0}
+                if names & (locals_ | set(params)):
+                    ok = False
+                T = T + Lin({s0: c})
+        if ok:
+            out.append(T)
+    return pay_c, tag_c, out, f'helper {h.name}'
+
+
+def _who_may_mutate(ctx: Ctx, m: pf.Module, fn: pf.FuncDef, where: str, result: str, bunch: str, loop: ast.For) -> None:
+    """R5: the only mutations of the result structure are (i) appending to the CURRENT bunch and (ii) appending a bunch at the END of the result list.
+    Every statement of the function that touches the result list, an element of it (through an index or an alias bound while iterating it) or the
+    current bunch is classified; inserting into / extending an earlier bunch and any re-ordering break "concatenated in original order"."""
+    aliases = facts.element_aliases(fn, result)
+    par: Dict[ast.AST, ast.AST] = {}
+    for p_ in ast.walk(fn):
+        for c in ast.iter_child_nodes(p_):
+            par[c] = p_
+    tail_ = 'a job can also land in front of a job group, and the server reads a job spec at offset job_id - start_job_id of its bunch'
+    stories = {
+        'earlier': f'the concatenation of the bunches is no longer the original sequence: e.g. four jobs packed as [j1] [j2] [j3] [j4] come out as [j1, j4] [j2] [j3]; {tail_}',
+        'result': f'the concatenation of the bunches is no longer the original sequence: e.g. bunches [j1, j2] [j3, j4] [j5] come out in another order such as [j5] [j1, j2] [j3, j4]; {tail_}',
+        'bunch': f'the specs inside a bunch are no longer in the original order: e.g. j1, j2, j3 are submitted as the bunch [j3, j2, j1]; the server reads a job spec at offset '
+                 f'job_id - start_job_id of its bunch',
+    }
+    seen_keys: Dict[str, int] = {}
+
+    def key(st: ast.AST) -> str:
+        k = pf.nsrc(st)
+        role = 'in the loop' if _inside(loop, st) else 'after the loop' if getattr(st, 'lineno', 0) > loop.lineno else 'before the loop'
+        k = f'{where}::{k} ({role})'
+        seen_keys[k] = seen_keys.get(k, 0) + 1
+        return k if seen_keys[k] == 1 else f'{k} #{seen_keys[k]}'
+
+    def recv_kind(e: ast.AST) -> Optional[str]:
+        if isinstance(e, ast.Name):
+            if e.id == result:
+                return 'result'
+            if e.id == bunch:
+                return 'bunch'
+            if e.id in aliases:
+                return {'earlier': 'element', 'last': 'elem-last', 'unknown': 'elem-unknown'}[facts.alias_kind(fn, aliases[e.id], result)]
+            return None
+        if isinstance(e, ast.Subscript) and isinstance(e.value, ast.Name) and e.value.id == result:
+            if isinstance(e.slice, ast.Slice):
+                return 'slice'
+            return {'last': 'elem-last', 'earlier': 'element', 'unknown': 'elem-unknown'}[facts.index_kind(fn, e.slice, result)]
+        if isinstance(e, ast.Subscript) and isinstance(e.value, ast.Name) and e.value.id in (bunch,) + tuple(aliases):
+            return 'inside-' + ('bunch' if e.value.id == bunch else 'element')
+        return None
+
+    def alias_text(e: ast.AST) -> str:
+        if isinstance(e, ast.Name) and e.id in aliases:
+            site = aliases[e.id]
+            how = f'`for {pf.nsrc(site.target)} in {pf.nsrc(site.iter)}`' if isinstance(site, (ast.For, ast.AsyncFor)) else f'`{pf.nsrc(site)}`'
+            return f'`{e.id}` (an element of `{result}` bound by {how}, i.e. a bunch that was already flushed and is in general not the last one)'
+        return f'`{pf.nsrc(e)}` (a bunch of `{result}` that was already flushed and is not the last one)'
+
+    def bad(st: ast.AST, msg: str, story: str = 'earlier') -> None:
+        ctx.bad('R5', key(st), msg + ': ' + stories[story], m.path, getattr(st, 'lineno', 0))
+
+    def ok(st: ast.AST, what: str) -> None:
+        ctx.ok('R5', key(st), what)
+
+    INPLACE = ('append', 'extend', 'insert', 'remove', 'pop', 'clear', 'sort', 'reverse')
+    handled_calls: Set[int] = set()
+    for st in _stmts(fn):
+        # ---- method calls
+        if isinstance(st, ast.Expr) and isinstance(st.value, ast.Call) and isinstance(st.value.func, ast.Attribute):
+            c = st.value
+            meth = c.func.attr  # type: ignore[attr-defined]
+            rk = recv_kind(c.func.value)  # type: ignore[attr-defined]
+            if rk is None or meth not in INPLACE:
+                continue
+            handled_calls.add(id(c))
+            rtxt = pf.nsrc(c.func.value)  # type: ignore[attr-defined]
+            if rk in ('result', 'bunch'):
+                if meth in ('append', 'extend'):
+                    ok(st, 'appends at the end')
+                elif meth == 'insert':
+                    if len(c.args) == 2 and pf.nsrc(c.args[0]) == f'len({rtxt})':
+                        ok(st, 'insert at the end')
+                    else:
+                        bad(st, f'`{pf.nsrc(st)}` inserts at a position other than the end of `{rtxt}`', rk)
+                elif meth in ('sort', 'reverse'):
+                    bad(st, f'`{pf.nsrc(st)}` re-orders `{rtxt}`', rk)
+                else:
+                    raise AnalysisError(f'{where}: `{pf.nsrc(st)}` removes from `{rtxt}` (not analysed)')
+            elif rk in ('element', 'inside-element'):
+                bad(st, f'`{pf.nsrc(st)}` modifies {alias_text(c.func.value)}')  # type: ignore[attr-defined]
+            else:
+                raise AnalysisError(f'{where}: `{pf.nsrc(st)}` mutates `{rtxt}` ({rk}: a different bunching design, not analysed)')
+            continue
+        # ---- assignments
+        if isinstance(st, (ast.Assign, ast.AugAssign, ast.AnnAssign)):
+            tgs = st.targets if isinstance(st, ast.Assign) else [st.target]
+            flat: List[ast.AST] = []
+            for t in tgs:
+                flat += list(t.elts) if isinstance(t, (ast.Tuple, ast.List)) else [t]
+            for t in flat:
+                rk = recv_kind(t) if isinstance(t, ast.Subscript) else None
+                if rk in ('element', 'slice', 'elem-unknown', 'elem-last'):
+                    if rk == 'elem-last' or (rk == 'elem-unknown' and len(flat) == 1):
+                        raise AnalysisError(f'{where}: `{pf.nsrc(st)}` assigns into `{pf.nsrc(t)}` (not analysed)')
+                    bad(st, f'`{pf.nsrc(st)}` assigns into `{result}` at a position other than its end', 'result')
+                elif rk == 'inside-element':
+                    bad(st, f'`{pf.nsrc(st)}` overwrites a spec inside {alias_text(t.value)}')  # type: ignore[attr-defined]
+                elif rk == 'inside-bunch':
+                    bad(st, f'`{pf.nsrc(st)}` overwrites a spec already collected in `{bunch}`', 'bunch')
+                elif isinstance(t, ast.Name) and t.id in aliases and isinstance(st, ast.AugAssign):
+                    if recv_kind(t) != 'element':
+                        raise AnalysisError(f'{where}: `{pf.nsrc(st)}` extends `{t.id}` ({recv_kind(t)}: a different bunching design, not analysed)')
+                    bad(st, f'`{pf.nsrc(st)}` extends {alias_text(t)} in place')
+                elif isinstance(t, ast.Name) and t.id == result and st.value is not None:
+                    v = st.value
+                    if isinstance(st, ast.AugAssign):
+                        if isinstance(st.op, ast.Add):
+                            ok(st, 'extends at the end')
+                        else:
+                            raise AnalysisError(f'{where}: `{pf.nsrc(st)}` not analysed')
+                    elif isinstance(v, ast.List) and not v.elts:
+                        pass
+                    elif _reorders(v, result):
+                        bad(st, f'`{pf.nsrc(st)}` re-orders `{result}`', 'result')
+                    elif isinstance(v, ast.BinOp) and isinstance(v.op, ast.Add) and isinstance(v.left, ast.Name) and v.left.id == result:
+                        ok(st, 'concatenates at the end')
+                    elif isinstance(v, ast.BinOp) and isinstance(v.op, ast.Add) and isinstance(v.right, ast.Name) and v.right.id == result:
+                        bad(st, f'`{pf.nsrc(st)}` puts a bunch in FRONT of the bunches flushed so far', 'result')
+                    else:
+                        raise AnalysisError(f'{where}: `{pf.nsrc(st)}` re-binds the result list (not analysed)')
+                elif isinstance(t, ast.Name) and t.id == bunch and st.value is not None and not isinstance(st, ast.AugAssign):
+                    v = st.value
+                    front = (isinstance(v, ast.BinOp) and isinstance(v.op, ast.Add) and isinstance(v.right, ast.Name) and v.right.id == bunch) or \
+                        (isinstance(v, ast.List) and len(v.elts) >= 2 and isinstance(v.elts[-1], ast.Starred) and pf.nsrc(v.elts[-1].value) == bunch)
+                    if front:
+                        bad(st, f'`{pf.nsrc(st)}` puts a spec in FRONT of the specs already collected in `{bunch}`', 'bunch')
+            continue
+        if isinstance(st, ast.Delete):
+            for t in st.targets:
+                if recv_kind(t) is not None or (isinstance(t, ast.Subscript) and recv_kind(t.value) is not None):
+                    raise AnalysisError(f'{where}: `{pf.nsrc(st)}` deletes from the result structure (not analysed)')
+    # ---- escapes: the result list / an element alias handed to code we do not see
+    PURE = facts.PURE_FUNCS | {'range'}
+    for c in pf.calls_in(fn):
+        if id(c) in handled_calls:
+            continue
+        if isinstance(c.func, ast.Attribute) and c.func.attr in INPLACE and recv_kind(c.func.value) is not None:
+            raise AnalysisError(f'{where}: `{pf.nsrc(c)}` mutates the result structure inside an expression (not analysed)')
+        argn = [a_ for a_ in list(c.args) + [k.value for k in c.keywords] if isinstance(a_, ast.Name) and (a_.id == result or a_.id in aliases)]
+        if not argn:
+            continue
+        fname = pf.dotted(c.func) or ''
+        if isinstance(c.func, ast.Name) and c.func.id in PURE:
+            continue
+        if fname.split('.')[-1] == 'shuffle':
+            st = par.get(c)
+            while st is not None and not isinstance(st, ast.stmt):
+                st = par.get(st)
+            bad(st or c, f'`{pf.nsrc(c)}` shuffles `{argn[0].id}`', 'result')
+            continue
+        raise AnalysisError(f'{where}: `{pf.nsrc(c)}` receives `{argn[0].id}` (the result structure escapes; not analysed)')
+
+
+def _reorders(v: ast.AST, result: str) -> bool:
+    """v is a re-ordered copy of the list `result`: sorted(result..), reversed(result), result[::-1], list(<one of these>)."""
+    if isinstance(v, ast.Call) and isinstance(v.func, ast.Name) and v.func.id in ('list', 'tuple') and len(v.args) == 1:
+        return _reorders(v.args[0], result)
+    if isinstance(v, ast.Call) and isinstance(v.func, ast.Name) and v.func.id in REORDER_FUNCS and v.args and isinstance(v.args[0], ast.Name) and v.args[0].id == result:
+        return True
+    if isinstance(v, ast.Subscript) and isinstance(v.value, ast.Name) and v.value.id == result and isinstance(v.slice, ast.Slice) and v.slice.step is not None \
+            and pf.nsrc(v.slice.step) != '1':
+        return True
+    if isinstance(v, (ast.ListComp, ast.GeneratorExp)) and len(v.generators) == 1 and _reorders(v.generators[0].iter, result):
+        return True
+    return False
+
+
+def _bunching(ctx: Ctx, m0: pf.Module) -> None:
+    m, inlined = _prepared(m0)
+    if inlined:
+        ctx.extra_cov['inlined_helpers'] = sorted({n for n, _ in inlined})
     fn = m.func(f'{CLS}._create_bunches')
     where = f'{F}::{CLS}._create_bunches'
     g = pf.cfg(fn)
@@ -87,11 +460,23 @@ def _bunching(ctx: Ctx, m: pf.Module) -> None:
     ctx.need(len(loops) == 1 and isinstance(loops[0].target, ast.Name) and not loops[0].orelse, f'{where}: expected one top-level for loop')
     loop = loops[0]
     spec = loop.target.id
-    ctx.need(not any(isinstance(x, (ast.For, ast.While, ast.AsyncFor, ast.Try, ast.With, ast.Break, ast.Return, ast.FunctionDef, ast.Lambda)) for st in loop.body for x in ast.walk(st)),
-             f'{where}: loop body contains a nested loop/try/break/return (not the recognised straight-line shape)')
     rets = [st for st in _stmts(fn) if isinstance(st, ast.Return)]
-    ctx.need(len(rets) == 1 and isinstance(rets[0].value, ast.Name), f'{where}: expected `return <result list>`')
-    result = rets[0].value.id
+    ctx.need(bool(rets) and all(r.value is not None for r in rets), f'{where}: expected `return <result list>`')
+    lists0 = {t.id for st in fn.body if isinstance(st, (ast.Assign, ast.AnnAssign)) and isinstance(st.value, ast.List) and not st.value.elts
+              for t in (st.targets if isinstance(st, ast.Assign) else [st.target]) if isinstance(t, ast.Name)}
+    rnames: Set[str] = set()
+    reordered_rets: List[ast.Return] = []
+    for r in rets:
+        v = pf.resolve_expr(fn, r.value) if not (isinstance(r.value, ast.Name) and r.value.id in lists0) else r.value  # type: ignore[arg-type]
+        if isinstance(v, ast.Name):
+            rnames.add(v.id)
+            continue
+        cand = sorted(pf.names_in(v) & lists0)
+        ctx.need(len(cand) == 1 and _reorders(v, cand[0]), f'{where}: expected `return <result list>`, found `{pf.nsrc(r)}`')
+        rnames.add(cand[0])
+        reordered_rets.append(r)
+    ctx.need(len(rnames) == 1, f'{where}: the returns name different lists: {sorted(rnames)}')
+    result = rnames.pop()
 
     # ---- R1 source and order
     it = pf.resolve_expr(fn, loop.iter)
@@ -104,15 +489,18 @@ def _bunching(ctx: Ctx, m: pf.Module) -> None:
         srcs = list(it.args)
     ctx.need(srcs is not None, f'{where}: loop iterable `{pf.nsrc(it)}` not recognised')
     tagged = []
+    src_facts: List[Tuple[str, List[Lin]]] = []   # per source list: facts L <= 0 over ELEM that hold for each of its elements
+    src_stmts: List[ast.stmt] = []
     for s in srcs:  # type: ignore[union-attr]
         e = pf.resolve_expr(fn, s)
         ctx.need(isinstance(e, ast.ListComp) and len(e.generators) == 1 and isinstance(e.generators[0].target, ast.Name), f'{where}: `{pf.nsrc(s)}` is not a simple list comprehension')
         gen = e.generators[0]  # type: ignore[union-attr]
         elt = e.elt  # type: ignore[union-attr]
-        ctx.need(isinstance(elt, ast.Call) and pf.dotted(elt.func) == 'SpecBytes' and len(elt.args) == 2, f'{where}: `{pf.nsrc(elt)}` is not SpecBytes(<bytes>, <type>)')
-        payload = elt.args[0]  # type: ignore[union-attr]
+        payload, tag, efacts, how = _elem_ctor(ctx, m, elt, where)
         pay_ok = isinstance(payload, ast.Call) and len(payload.args) == 1 and isinstance(payload.args[0], ast.Name) and payload.args[0].id == gen.target.id
-        tagged.append((pf.nsrc(gen.iter), pf.nsrc(elt.args[1]), bool(gen.ifs), pay_ok, e))  # type: ignore[union-attr]
+        tagged.append((pf.nsrc(gen.iter), pf.nsrc(tag), bool(gen.ifs), pay_ok, e))  # type: ignore[union-attr]
+        src_facts.append((pf.nsrc(s), list(efacts)))
+        src_stmts += [st for st in fn.body if isinstance(st, (ast.Assign, ast.AnnAssign)) and st.value is e]
     want = [(p_groups, 'SpecType.JOB_GROUP'), (p_jobs, 'SpecType.JOB')]
     got = [(a, b) for a, b, _, _, _ in tagged]
     ctx.check(got == want, 'R1', f'{where}::iterable = job groups then jobs',
@@ -136,8 +524,20 @@ def _bunching(ctx: Ctx, m: pf.Module) -> None:
                 and any(isinstance(e, ast.Name) and e.id == spec for e in st.value.elts):
             bunch_names.add(st.targets[0].id)
     bunch_names.discard(result)
+    bunch_names -= set(facts.element_aliases(fn, result))   # a name bound to an element of the result list is an already flushed bunch, not the current one
     ctx.need(len(bunch_names) == 1, f'{where}: cannot identify the current-bunch variable (candidates {sorted(bunch_names)})')
     bunch = bunch_names.pop()
+
+    # ---- R5 who may mutate the result structure (runs before the shape-specific analysis below, which may decline)
+    _who_may_mutate(ctx, m, fn, where, result, bunch, loop)
+    for r in rets:
+        if any(r is x for x in reordered_rets):
+            ctx.bad('R5', f'{where}::{pf.nsrc(r)}', f'`{pf.nsrc(r)}` returns a re-ordered copy of `{result}`: the bunches are not submitted in the order the specs were given '
+                    f'(job-group bunches are submitted sequentially in list order, and a job must not precede its job group)', m.path, r.lineno)
+    if not reordered_rets:
+        ctx.ok('R5', f'{where}::every return yields the result list itself', {'returns': len(rets)})
+    ctx.need(not any(f_.rule == 'R5' for f_ in ctx.findings), f'{where}: the linear-use and limit analysis below assumes an append-only result structure; it is not run after the '
+             f'order violation(s) above')
 
     def event(n: pf.Node) -> Optional[str]:
         a = n.ast
@@ -150,6 +550,8 @@ def _bunching(ctx: Ctx, m: pf.Module) -> None:
             if recv == bunch and meth == 'append' and args == [spec] and not c.keywords:
                 return 'app'
             if recv == result and meth == 'append' and args == [bunch] and not c.keywords:
+                return 'flush'
+            if recv == result and meth == 'extend' and args == [f'[{bunch}]'] and not c.keywords:
                 return 'flush'
             if recv in (bunch, result):
                 return f'other:{pf.nsrc(a)}'
@@ -169,9 +571,14 @@ def _bunching(ctx: Ctx, m: pf.Module) -> None:
                     return 'new0'
                 return f'other:{pf.nsrc(a)}'
             if result in names:
+                if isinstance(a, ast.AugAssign) and isinstance(a.target, ast.Name) and isinstance(a.op, ast.Add) and isinstance(a.value, ast.List) \
+                        and [pf.nsrc(e) for e in a.value.elts] == [bunch]:
+                    return 'flush'
                 return f'other:{pf.nsrc(a)}'
         return None
 
+    ctx.need(not any(isinstance(x, (ast.For, ast.While, ast.AsyncFor, ast.Try, ast.With, ast.Break, ast.Return, ast.FunctionDef, ast.Lambda)) for st in loop.body for x in ast.walk(st)),
+             f'{where}: loop body contains a nested loop/try/break/return (not the recognised straight-line shape)')
     # ---- enumerate the paths of one iteration
     paths: List[List[Tuple[pf.Node, str]]] = []
 
@@ -203,6 +610,65 @@ def _bunching(ctx: Ctx, m: pf.Module) -> None:
     size = linform.sym(f'{spec}.n_bytes')
     LIM_B, LIM_N = linform.sym(p_bytes), linform.sym(p_size)
     LEN = linform.sym(f'len({bunch})')
+    bounds = {p_bytes: p_bytes, p_size: p_size}
+
+    # ---- statements outside the loop: locals that are linear in the parameters, per-element facts, and what is not recognised
+    pre_env: Dict[str, ast.AST] = {}
+    recognised: List[ast.stmt] = list(src_stmts)
+    all_facts: List[Tuple[Optional[str], Lin]] = []   # (source list text or None for every element, fact over ELEM)
+    src_names = [t for t, _ in src_facts]
+    E = linform.sym(ELEM)
+    for st in fn.body:
+        if st is loop or not isinstance(st, (ast.Assign, ast.AnnAssign, ast.Assert)):
+            continue
+        if isinstance(st, ast.Assert):
+            t = st.test
+            if isinstance(t, ast.Call) and isinstance(t.func, ast.Name) and t.func.id == 'all' and len(t.args) == 1 and isinstance(t.args[0], (ast.GeneratorExp, ast.ListComp)) \
+                    and len(t.args[0].generators) == 1 and not t.args[0].generators[0].ifs and isinstance(t.args[0].generators[0].target, ast.Name) \
+                    and st.lineno < loop.lineno:
+                ge = t.args[0]
+                v = ge.generators[0].target.id
+                it_txt = pf.nsrc(ge.generators[0].iter)
+                cover: Optional[str]
+                if it_txt in src_names:
+                    cover = it_txt
+                elif it_txt == pf.nsrc(loop.iter) or it_txt == pf.nsrc(it):
+                    cover = None
+                else:
+                    continue
+                venv = {f'{v}.n_bytes': E, f'len({v}.spec_bytes)': E}
+                got_any = False
+                for atom, pol in _conjuncts(ge.elt, True):
+                    L = _le0(atom, pol, {**pre_env, **venv})  # type: ignore[arg-type]
+                    if L is not None and ELEM in L.coef:
+                        all_facts.append((cover, L))
+                        got_any = True
+                if got_any:
+                    recognised.append(st)
+                continue
+            if all(_le0(atom, pol, pre_env) is not None for atom, pol in _conjuncts(t, True)) and _conjuncts(t, True):
+                recognised.append(st)
+            continue
+        tg = st.targets if isinstance(st, ast.Assign) else [st.target]
+        if len(tg) == 1 and isinstance(tg[0], ast.Name) and st.value is not None and tg[0].id not in (bunch, result) and st.lineno < loop.lineno \
+                and len(pf.assignments(fn).get(tg[0].id, [])) == 1:
+            try:
+                linform.lin(st.value, pre_env)
+            except AnalysisError:
+                continue
+            pre_env[tg[0].id] = st.value
+            recognised.append(st)
+    env = {**pre_env, **env}
+    elem_facts: List[Lin] = []
+    per_src: List[List[Lin]] = []
+    for txt, fs in src_facts:
+        per_src.append(list(fs) + [L for c, L in all_facts if c is None or c == txt])
+    if per_src:
+        for L in per_src[0]:
+            if all(any(L == L2 for L2 in other) for other in per_src[1:]):
+                elem_facts.append(L - Lin({ELEM: L.coef[ELEM]}) + size.scale(L.coef[ELEM]))
+    unrecognised = [st for st in fn.body if st is not loop and not any(st is r_ for r_ in recognised) and not isinstance(st, ast.Return)
+                    and (p_bytes in pf.names_in(st) or any(isinstance(x, ast.Attribute) and x.attr in ('n_bytes', 'spec_bytes') for x in ast.walk(st)))]
 
     lin_bad: List[str] = []
     lim_bad: List[str] = []
@@ -225,25 +691,28 @@ def _bunching(ctx: Ctx, m: pf.Module) -> None:
             if k in ('new0', 'new1') and (i == 0 or kinds[i - 1] != 'flush'):
                 lin_bad.append(f'on the path {desc} `{bunch}` is rebound without first being appended to `{result}`: the specs collected so far are lost')
         # facts along the path
-        facts: List[Lin] = []
+        pfacts: List[Lin] = []
         pos_of = {}
+        for L0 in elem_facts:
+            for L in _weaken(L0, bounds):
+                pfacts.append(L)
+                pos_of[id(L)] = -1
         for i, (n, lab) in enumerate(path):
+            atoms: List[Tuple[ast.AST, bool]] = []
             if n.kind == 'test' and lab in ('T', 'F'):
-                for atom, pol in _conjuncts(n.ast, lab == 'T'):
-                    L = _le0(atom, pol, env)
-                    if L is not None:
-                        facts.append(L)
-                        pos_of[id(L)] = i
+                atoms = _conjuncts(n.ast, lab == 'T')  # type: ignore[arg-type]
             elif n.kind == 'stmt' and isinstance(n.ast, ast.Assert):
-                for atom, pol in _conjuncts(n.ast.test, True):
-                    L = _le0(atom, pol, env)
-                    if L is not None:
-                        facts.append(L)
+                atoms = _conjuncts(n.ast.test, True)
+            for atom, pol in atoms:
+                L0 = _le0(atom, pol, env)
+                if L0 is not None:
+                    for L in _weaken(L0, bounds):
+                        pfacts.append(L)
                         pos_of[id(L)] = i
         if 'app' in kinds:
             n_app += 1
             app_i = [i for i, (n, _) in enumerate(path) if event(n) == 'app'][0]
-            before = [L for L in facts if pos_of[id(L)] < app_i]
+            before = [L for L in pfacts if pos_of[id(L)] < app_i]
             # count limit
             if not any(_nonneg_const(L - (LEN + linform.const(1) - LIM_N)) for L in before):
                 lim_bad.append(f'`{bunch}.append({spec})` on the path {desc} is not guarded by len({bunch}) + 1 <= {p_size}: with {p_size} = k a bunch receives k + 1 specs')
@@ -262,9 +731,16 @@ def _bunching(ctx: Ctx, m: pf.Module) -> None:
         if 'new1' in kinds:
             n_new += 1
             new_i = [i for i, (n, _) in enumerate(path) if event(n) == 'new1'][0]
-            before = [L for L in facts if pos_of[id(L)] < new_i]
+            before = [L for L in pfacts if pos_of[id(L)] < new_i]
             if not any(_nonneg_const(L - (size - LIM_B)) for L in before):
-                fresh_bad.append(f'the fresh bunch `[{spec}]` on the path {desc} is not preceded by a check {spec}.n_bytes <= {p_bytes}: a spec larger than the limit becomes a bunch of its own')
+                sz = f'{spec}.n_bytes'
+                others = [size - L for L in before if L.coef.get(sz) == 1 and not any(s_ == f'len({bunch})' for s_ in L.coef)
+                          and (counter is None or counter not in L.coef) and p_bytes not in L.coef]
+                extra = ''
+                if others:
+                    extra = (f'; the only per-spec bound established is {sz} <= {others[0]!r}, which is not this call\'s parameter `{p_bytes}` (submit() forwards a caller-chosen limit): '
+                             f'with {p_bytes}=65536 a spec of 200000 bytes passes that check and is returned as a bunch of 200000 bytes')
+                fresh_bad.append(f'the fresh bunch `[{spec}]` on the path {desc} is not preceded by a check {spec}.n_bytes <= {p_bytes}: a spec larger than the limit becomes a bunch of its own' + extra)
 
     # byte accounting along each path (needs the counter found above)
     if counter is not None:
@@ -300,6 +776,8 @@ def _bunching(ctx: Ctx, m: pf.Module) -> None:
         else:
             ctx.ok(rule, cons, detail)
 
+    ctx.need(not ((lim_bad or fresh_bad) and unrecognised), f'{where}: a limit check would be reported missing, but statements outside the loop mention the byte limit / spec sizes in a '
+             f'form that is not analysed: {[pf.nsrc(st)[:80] for st in unrecognised]}')
     report('R2', 'each spec consumed exactly once, bunch rebound only after flush', lin_bad, {'paths': len(paths), 'appending': n_app, 'fresh': n_new})
     ctx.need(n_app >= 1 and n_new >= 1 or lin_bad, f'{where}: expected an appending path and a fresh-bunch path')
     report('R3', 'append guarded by both limits', lim_bad, {'counter': counter})
@@ -365,6 +843,22 @@ def _submit_call(ctx: Ctx, m: pf.Module) -> None:
     ctx.check(got == want, 'R1', f'{where}::arguments of _create_bunches', f'_create_bunches{tuple(callee)} is called with {got}: '
               + ('job specs are tagged as job groups and vice versa' if got[:2] == want[1::-1] else 'the byte limit and the count limit are interchanged' if got[2:] == want[:1:-1] else 'wrong arguments'),
               m.path, calls[0].lineno)
+    # the public entry point hands ITS limit arguments on (the dual of checking against the class defaults inside _create_bunches)
+    sub = m.func(f'{CLS}.submit')
+    swhere = f'{F}::{CLS}.submit'
+    sparams = [a.arg for a in sub.args.args + sub.args.kwonlyargs]
+    ctx.need('max_bunch_bytesize' in sparams and 'max_bunch_size' in sparams, f'{swhere}: limit parameters renamed')
+    ctx.need(not any(n_ in pf.assignments(sub) and len(pf.assignments(sub)[n_]) != 1 for n_ in ('max_bunch_bytesize', 'max_bunch_size')), f'{swhere}: a limit parameter is re-assigned (not analysed)')
+    inner = [c for c in pf.calls_in(sub) if pf.dotted(c.func) == 'self._submit']
+    ctx.need(len(inner) >= 1, f'{swhere}: no call of self._submit')
+    for i, c in enumerate(inner, start=1):
+        ctx.need(not any(isinstance(a, ast.Starred) for a in c.args) and not any(k.arg is None for k in c.keywords), f'{swhere}: star arguments in `{pf.nsrc(c)}`')
+        b = dict(zip(params[1:], [pf.nsrc(a) for a in c.args]))
+        b.update({k.arg: pf.nsrc(k.value) for k in c.keywords})
+        got2 = [b.get('max_bunch_bytesize'), b.get('max_bunch_size')]
+        ctx.check(got2 == ['max_bunch_bytesize', 'max_bunch_size'], 'R1', f'{swhere}::limits forwarded to _submit #{i}',
+                  f'`{pf.nsrc(c)}` passes {got2} as (max_bunch_bytesize, max_bunch_size): the limits the caller of submit() asked for are not the ones the bunches are built with '
+                  f'(e.g. submit(max_bunch_bytesize=65536) still produces bunches of up to the other value)', m.path, c.lineno)
     bvar = [t.id for st in _stmts(fn) if isinstance(st, ast.Assign) and st.value is calls[0] for t in st.targets if isinstance(t, ast.Name)]
     ctx.need(len(bvar) == 1 and len(pf.assignments(fn).get(bvar[0], [])) == 1, f'{where}: result of _create_bunches is not bound once')
     bunches = bvar[0]
@@ -484,10 +978,14 @@ def run(ctx: Ctx) -> None:
     ctx.exhaustive = True
     ctx.explanation = ('All paths through the body of the bunching loop are enumerated on the CFG and checked for linear use of the spec and of the current bunch; guards and '
                        'byte accounting are compared in linear normal form; submitter filters are matched with their endpoints / JSON keys; nothing is run.')
-    ctx.rule('R1', 'iterable = [*JOB_GROUP-tagged(param 1), *JOB-tagged(param 2)] from unfiltered comprehensions; _submit passes (job group specs, job specs, byte limit, count limit)', 3)
+    ctx.rule('R1', 'iterable = [*JOB_GROUP-tagged(param 1), *JOB-tagged(param 2)] from unfiltered comprehensions (element constructor seen through helpers); _submit passes (job group specs, '
+                   'job specs, byte limit, count limit); submit() forwards its own limit arguments', 5)
     ctx.rule('R2', 'on every path through the loop body the spec is consumed exactly once, bunch is rebound only right after being flushed, lists start empty, residual bunch appended', 3)
-    ctx.rule('R3', 'append guarded by bytes + n <= max_bytes and len + 1 <= max_size; tracked bytes >= actual bytes on every path; fresh [spec] preceded by n <= max_bytes; n_bytes = len(spec_bytes)', 4)
+    ctx.rule('R3', 'append guarded by bytes + n <= max_bytes and len + 1 <= max_size against the limit PARAMETERS of this call (or values provably <= them); tracked bytes >= actual bytes on '
+                   'every path; fresh [spec] preceded by n <= max_bytes (facts from the loop, from serialisation helpers and from all()-asserts); n_bytes = len(spec_bytes)', 4)
     ctx.rule('R4', 'submitters filter by the SpecType of their endpoint / JSON key; bunches passed unchanged and in order; job-group bunches awaited before job bunches in both multi-bunch paths', 10)
+    ctx.rule('R5', 'who may mutate the result structure: specs are only appended to the CURRENT bunch and bunches only appended at the END of the result list; no statement inserts into / '
+                   'extends / overwrites an already flushed bunch (index or iteration alias), re-orders a list, or returns a re-ordered copy', 4)
     ctx.assume('spec sizes are non-negative and assert statements are enabled (a spec larger than the byte limit is rejected by the assert, not bunched)')
     m = pf.load(F)
     ctx.unit('files')
